@@ -16,6 +16,9 @@ labelled streams (`gen_finding`), one known defect shape each:
    F12 (verilog) the translator face of C10's F12: an implicitly sized temporary `t = i + 1` in a loop is declared with the operand width and wraps
    F35 (both)    a chained assignment to temporaries as the ONLY statement of an else / for body: emitted without begin/end
    F25 (yosys)   an interface that contains a list of interfaces: the grouping wires the code refers to are never declared / connected
+   yosys-signed-loopvar (yosys)  `< <= > >=` / `%` / a compared `>>` whose operands are ALL loop variables (`integer`: signed, every use
+                 `N'(__loopvar__…)` keeps the sign, IEEE 1800-2017 6.24.1 / 11.8.1), ranges reaching the sign bit of the inferred width; with
+                 controls in the same design (`== !=`, one operand a temporary / signal / literal: unsigned, correct)
 regression streams (`gen_fixed`): the shapes of defects repaired by fix: commits (F15, F16, F16b, F18, F19, F20, F21, F22, F23, F29, F31-F34); expected clean.
 """
 import math
@@ -1040,6 +1043,8 @@ T2 = 'regression-T2-single-field-struct-instance'           # repaired f402609: 
 F38 = 'F38-bool-constant-attribute'
 F39 = 'F39-if-expression-loop-bound'
 F35 = 'F35-chained-assignment-sole-body-without-begin-end'
+YSL = 'yosys-signed-loopvar'                                    # round 13 (P5): known finding C12-yosys-signed-loopvar
+P6 = 'regression-P6-bool-free-variable'                         # repaired 93e9b7c: a bool closure / global constant is the number 0 / 1
 
 FINDING_STREAMS = {
   # id -> (backends, expected violation kinds)
@@ -1048,6 +1053,7 @@ FINDING_STREAMS = {
   F12: (('verilog', 'yosys'), ('output-mismatch', 'cast-reading-dependent')),
   F35: (('verilog', 'yosys'), ('output-mismatch', 'multi-driver', 'undriven')),
   F25: (('yosys',), ('syntax-invalid', 'undriven', 'output-mismatch', 'multi-driver')),
+  YSL: (('yosys',), ('output-mismatch',)),
 }
 # labelled streams of confirmed defects that are neither registered as known findings nor repaired yet: a check runs such a
 # stream only once known_findings.json has an entry of its property whose match.finding is the stream id
@@ -1077,6 +1083,7 @@ FIXED_STREAMS = {
   T5: ('verilog',), T7: ('verilog', 'yosys'),
   D4: ('verilog', 'yosys'),   # directed: a plain loop variable / int temporary as the shift amount, reaching and exceeding the width of the shifted value (seeded C03-10)
   D3: ('verilog', 'yosys'),   # directed: right-nested chains of -, >>, <<, % with operand values for which the groupings differ (seeded C03-8)
+  P6: ('verilog', 'yosys'),
   D1: ('verilog',),       # directed (not a repaired defect): descending loops whose variable is used as a VALUE of its own width (seeded C03-2); yosys rejects negative steps
 }
 
@@ -1416,6 +1423,45 @@ def gen_finding(rng, be, fid):
       # the texts differ when c = 1 (else) / when b != 0 (for)
       fixed_cycles = [{'.a': rng.getrandbits(W), '.b': rng.getrandbits(W) | 1, '.c': 1, '.reset': 0}, {'.a': rng.getrandbits(W), '.b': rng.getrandbits(W), '.c': 0, '.reset': 0},
                       {'.a': rng.getrandbits(W), '.b': rng.getrandbits(W) | 2, '.c': 1, '.reset': 0}]
+  elif fid == YSL:
+    # two (three) loop variables whose ranges reach the sign bit of the width the type checker infers for them (range(n): (n-1).bit_length()
+    # bits); the FIRST statement is always a comparison of two loop variables whose outcome does not depend on the inputs, the others
+    # are drawn from the sign-sensitive shapes and from the controls
+    n1 = rng.choice([3, 4, 5, 8, 8, 13, 16]); n2 = rng.choice([3, 4, 8, n1, n1]); n3 = rng.choice([2, 3, 4])
+    W = max(n1, n2)
+    cmpop = lambda: rng.choice(['<', '<=', '>', '>='])
+    variant = rng.choice(['if', 'value', 'ifexp', 'shifted', 'masked', 'mod'])
+    first = {'if': [f'          if i {cmpop()} j:', '            s.o[i] @= 1'],
+             'value': [f'          s.p[j] @= s.p[j] | ( i {cmpop()} j )'],
+             'ifexp': [f'          s.o[i] @= s.o[i] | ( 1 if i {cmpop()} j else 0 )'],
+             'shifted': [f'          if ( i >> 1 ) {cmpop()} j:', '            s.o[i] @= 1'],
+             'masked': [f"          if ( i {rng.choice('&|^')} j ) {cmpop()} {rng.choice('ij')}:", '            s.o[i] @= 1'],
+             'mod': ['          if j > 0:', '            if ( i % j ) == ( i >> 1 ):', '              s.o[i] @= 1']}[variant]     # both sides signed: a signed remainder
+    pool = [
+      [f'          if i {cmpop()} j:', '            s.q[i] @= s.a[j]'],
+      [f'          s.q[j] @= s.q[j] ^ ( ( i {cmpop()} j ) & s.a[i] )'],
+      [f"          if ( i >> k ) {cmpop()} ( j >> k ):", '            s.q[i] @= s.a[j]'],
+      # controls: the same operators with ONE unsigned operand, and the sign-insensitive operators on two loop variables
+      [f"          if i {rng.choice(['==', '!='])} j:", '            s.r[i] @= s.a[j]'],
+      ['          t = i ^ j', f'          if t {cmpop()} j:', '            s.r[j] @= s.a[i]'],
+      [f'          if ( i >> k ) {cmpop()} {rng.randint(0, 3)}:', '            s.r[i] @= ~s.a[i]'],
+      [f'          if zext( s.a[0:2], {max(2, (W - 1).bit_length())} ) {cmpop()} i:', '            s.r[i] @= s.a[j]'],
+      [f'          s.r[j] @= s.r[j] | ( ( s.a >> i ) {cmpop()} ( s.a >> j ) )'],
+    ]
+    rng.shuffle(pool)
+    L += ['class Top( Component ):', '  def construct( s ):', f'    s.a = InPort( Bits{W} )'] + [f'    s.{x} = OutPort( Bits{W} )' for x in 'opqr'] + \
+         ['    @update', '    def up():'] + [f'      s.{x} @= 0' for x in 'opqr'] + \
+         [f'      for i in range({n1}):', f'        for j in range({n2}):'] + first + [f'          for k in range({n3}):'] + \
+         ['  ' + l for st in pool[:rng.randint(2, 4)] for l in st]
+    top = (1 << W) - 1
+    fixed_cycles = [{'.a': top, '.reset': 0}, {'.a': rng.getrandbits(W), '.reset': 0}, {'.a': rng.getrandbits(W) | 1 | (1 << (W - 1)), '.reset': 0}]
+  elif fid == P6:
+    W = rng.choice([4, 8])
+    g1, g2, k1 = rng.random() < 0.5, rng.random() < 0.5, rng.random() < 0.5
+    L[1:1] = [f'GK = {g1}', f'GF = {g2}', '']
+    L += ['class Top( Component ):', '  def construct( s ):', f'    s.a = InPort( Bits{W} )', f'    s.o = OutPort( Bits{W} )', '    s.p = OutPort( Bits1 )', f'    s.q = OutPort( Bits{W} )',
+          f'    kf = {k1}', '    @update', '    def up():', f"      s.o @= s.a {rng.choice('+-^')} GK", f"      s.p @= s.a[0] {rng.choice('&|^')} kf",
+          '      if GF:', f"        s.q @= s.a ^ {rng.randint(1, 7)}", '      else:', f"        s.q @= s.a {rng.choice('+-')} kf"]
   elif fid == F7:
     k = rng.sample(range(1, 1 << max(w, 2)), 2)
     w = max(w, 2)
@@ -1445,8 +1491,21 @@ def gen_finding(rng, be, fid):
   d = {'src': '\n'.join(L) + '\n', 'label': fid + (':' + variant if variant else ''), 'finding': fid, 'variant': variant,
        'expect': FINDING_STREAMS[fid][1], 'features': ['finding-stream']}
   if variant == 'const-array-field': d['expect'] = ('multi-driver', 'undriven'); d['scope'] = ('cfg',)
-  if fid == F35: d['cycles'] = fixed_cycles
+  if fid in (F35, YSL): d['cycles'] = fixed_cycles
   return d
+
+def extra_witnesses(be, pid):
+  """canonical witnesses kept as committed replay files under known_replays/ (run first, like c03_corpus.WITNESSES)"""
+  import json, os
+  out = []
+  root = os.path.dirname(os.path.dirname(os.path.dirname(os.path.abspath(__file__))))
+  for fid, fn in ((YSL, 'C12-yosys-signed-loopvar.json'),):
+    if be not in FINDING_STREAMS[fid][0]: continue
+    try: case = json.load(open(os.path.join(root, 'known_replays', fn)))['case']
+    except (OSError, KeyError, ValueError): continue
+    out.append({'src': case['src'], 'label': fid + ':witness', 'finding': fid, 'variant': None, 'expect': FINDING_STREAMS[fid][1],
+                'features': ['finding-stream'], 'cycles': case['cycles']})
+  return out
 
 def gen_history(rng, be):
   """one class whose `//= lambda` is selected by a constructor parameter (a different expression text per value, on separate
